@@ -74,6 +74,19 @@ Funcs == {
   PF("mem", <<SIn("d", "signal-M", 5), SIn("g", "signal-G", 0), SIn("h", "signal-H", 0),
               SFunc("cell", <<[ty |-> "Signal", n |-> "v"], [ty |-> "Signal", n |-> "en"]>>, <<SMem("m", "signal-M"), SWrite("m", Ref("v"), "when", Bin(">", Ref("en"), Num(0)), Num(0))>>, ReadE("m")),
               SLet("Signal", "r", CallE("cell", <<Ref("d"), Ref("g")>>)), SLet("Signal", "s", CallE("cell", <<Ref("d"), Ref("h")>>))>>, "hist"),
+  PF("shadowint", <<InA, InB, SInt("k", Num(10)), SFunc("f", <<[ty |-> "Signal", n |-> "k"]>>, <<>>, Bin("*", Ref("k"), Num(2))), SLet("Signal", "r", CallE("f", <<A>>)),
+                    SLet("Signal", "s", Bin("+", B, Ref("k")))>>, "val"),
+  PF("shadowint", <<InA, InB, SInt("k", Num(10)), SFunc("f", <<FX>>, <<SLet("Signal", "k", Bin("+", Ref("x"), Num(1)))>>, Bin("*", Ref("k"), Num(3))), SLet("Signal", "r", CallE("f", <<A>>)),
+                    SLet("Signal", "s", Bin("+", B, Ref("k")))>>, "val"),
+  PF("shadowint", <<InA, SFunc("f", <<[ty |-> "Signal", n |-> "i"]>>, <<>>, Bin("+", Ref("i"), Num(1))),
+                    SFor("i", IRange(Num(1), Num(3), Num(0)), <<SLet("Signal", "v", CallE("f", <<A>>)), Lamp("e", Bin("*", I, Num(2)), Num(0)), En("e", Bin(">", Ref("v"), I))>>)>>, "val"),
+  PF("shadowint", <<InA, SInt("n", Num(7)), SFunc("f", <<[ty |-> "Signal", n |-> "n"], [ty |-> "int", n |-> "k"]>>, <<>>, Bin("+", Bin("*", Ref("n"), Num(2)), Ref("k"))),
+                    SLet("Signal", "r", CallE("f", <<A, Ref("n")>>))>>, "val"),
+  PF("twocalls", <<InA, InB, SFunc("f", <<FX, FN>>, <<>>, Bin("*", Ref("x"), Bin("+", Ref("n"), Num(1)))), SLet("Signal", "r", CallE("f", <<A, Num(2)>>)), SLet("Signal", "s", CallE("f", <<B, Num(5)>>))>>, "val"),
+  PF("twocalls", <<InA, SFunc("g", <<FN>>, <<>>, Lit(TName("signal-B"), Bin("*", Ref("n"), Num(10)))), SLet("Signal", "r", CallE("g", <<Num(2)>>)), SLet("Signal", "s", CallE("g", <<Num(5)>>)),
+                   SLet("Signal", "t", Bin("+", A, Ref("s")))>>, "val"),
+  PF("twocalls", <<InA, SFunc("h", <<FX, FN>>, <<>>, Bin("+", Ref("x"), Bin("+", Bin("%", Ref("n"), Num(4)), Bin(">>", Ref("n"), Num(1))))), SLet("Signal", "r", CallE("h", <<A, Num(9)>>)),
+                   SLet("Signal", "s", CallE("h", <<A, Num(9)>>)), SLet("Signal", "t", CallE("h", <<A, Num(-9)>>))>>, "val"),
   \* a callee-local Memory named like a cell of the CALLER that the caller goes on using after the call
   PF("memclash", <<SIn("d", "signal-M", 5), SIn("g", "signal-G", 0), SIn("h", "signal-H", 0),
               SFunc("cell", <<[ty |-> "Signal", n |-> "v"], [ty |-> "Signal", n |-> "en"]>>, <<SMem("m", "signal-M"), SWrite("m", Ref("v"), "when", Bin(">", Ref("en"), Num(0)), Num(0))>>, ReadE("m")),
